@@ -17,6 +17,17 @@ CLAIMED = {
     ),
 }
 
+CLAIMED["C14"] = (
+    "Coq theorems for all rational start/end/duration/hop: k-th window = (start+k*hop, min(start+k*hop+dur, end)); window k "
+    "is produced iff it starts inside the clip and (fits or include_incomplete); inside parent; exact duration; truncation; "
+    "coverage when hop<=duration; strictly increasing starts (distinct ids); rejection iff non-positive; the loop ends by a "
+    "break, never by its bound. Model tied to /repo/src by exact differential run on dyadic inputs.",
+    "Trusted: Coq kernel/vm_compute; hand-written model of operations.py (correspondence-checked); uuid5/repr(float) "
+    "injectivity assumed (ids compared with uuid5 recomputed from the bounds); float rounding not modelled.",
+    "Rocq/Coq proof over Q (induction on the generator loop) + model/implementation correspondence by vm_compute",
+    "DESIGN.md section 6, C14",
+)
+
 NOT_YET = {}
 
 
